@@ -317,6 +317,10 @@ class ProjectConfig:
             except OSError as err:
                 # e.g. a dangling symlink, or a file we are not allowed to read
                 return ("", [CannotOpenFile(path, err.strerror, 0)])
+        else:
+            # Text handed over by an editor keeps the line ends of its buffer: read it the way
+            # the saved file is read
+            text = text.replace("\r\n", "\n").replace("\r", "\n")
 
         text, diagnostics = self.substitute(text)
         match_found = PAT_GIT_MARKER.finditer(text)
